@@ -158,6 +158,8 @@ type Obligation struct {
 	defs   *defNode
 	goal   string
 	Cover  bool // expect sat (vacuity/cover check)
+	Raw    string // complete SMT-LIB text (hand-written lemma): used instead of the generated query
+	MaxSec int    // per-obligation solver time limit override
 	Result string
 	Solver string
 	Secs   float64
